@@ -135,7 +135,8 @@ fn collect(rep: &mut Report, v: &Value) {
     let items = get_ints(v, "items");
     let first_error = get_i64(v, "first_error");
     let n = items.len();
-    let key = format!("collect|items={items:?}");
+    let src = v["src"].as_str().unwrap_or("exact");
+    let key = format!("collect|src={src}|items={items:?}");
     let vals: Vec<f64> = items.iter().map(|x| if *x == -1 { f64::NAN } else { *x as f64 }).collect();
     let same = |got: &[f64]| -> Result<(), String> {
         if got.len() != n || !all_of(got.iter().zip(&vals), |(g, w)| g.to_bits() == w.to_bits() || (g.is_nan() && w.is_nan())) {
@@ -144,6 +145,33 @@ fn collect(rep: &mut Report, v: &Value) {
             Ok(())
         }
     };
+    // trusted sources whose size hint has a lower bound below the number of items they yield
+    // (the TrustedLen contract fixes the upper bound only)
+    if src != "exact" {
+        let hint = get_ints(v, "hint");
+        macro_rules! source {
+            () => {{
+                match src {
+                    "scan" => Box::new(vals.clone().into_iter().scan((), |_, x| Some(x))) as Box<dyn TrustedLen<Item = f64>>,
+                    "scan_of_map" => Box::new(vals.clone().into_iter().map(|x| x).scan(0usize, |k, x| { *k += 1; Some(x) })) as Box<dyn TrustedLen<Item = f64>>,
+                    _ => Box::new(vals.clone().into_iter().rev().rev()) as Box<dyn TrustedLen<Item = f64>>,
+                }
+            }};
+        }
+        let (lo, up) = source!().size_hint();
+        if (lo as i64, up.map(|x| x as i64)) != (hint[0], Some(hint[1])) {
+            tool_error(&format!("source {src} announces ({lo}, {up:?}), the specification models {hint:?}"));
+        }
+        judge(rep, "collect_trusted_vec1", &key, "Vec<f64>", catch(|| same(&source!().collect_trusted_vec1::<Vec<f64>>())), v);
+        judge(rep, "collect_trusted_vec1", &key, "VecDeque<f64>", catch(|| same(&source!().collect_trusted_vec1::<VecDeque<f64>>().into_iter().collect::<Vec<_>>())), v);
+        judge(rep, "collect_trusted_vec1", &key, "Array1<f64>", catch(|| same(&source!().collect_trusted_vec1::<Array1<f64>>().to_vec())), v);
+        judge(rep, "collect_trusted_to_vec", &key, "Vec<f64>", catch(|| same(&source!().collect_trusted_to_vec())), v);
+        judge(rep, "try_collect_trusted_vec1", &key, "Vec<f64>", catch(|| {
+            let r: TResult<Vec<f64>> = source!().map(Ok).try_collect_trusted_vec1::<Vec<f64>>();
+            r.map_err(|e| e.to_string()).and_then(|g| same(&g))
+        }), v);
+        return;
+    }
     judge(rep, "collect_vec1", &key, "Vec<f64>", catch(|| same(&vals.clone().into_iter().collect_vec1::<Vec<f64>>())), v);
     judge(rep, "collect_vec1", &key, "VecDeque<f64>", catch(|| same(&vals.clone().into_iter().collect_vec1::<VecDeque<f64>>().into_iter().collect::<Vec<_>>())), v);
     judge(rep, "collect_trusted_vec1", &key, "Vec<f64>", catch(|| same(&vals.clone().into_iter().collect_trusted_vec1::<Vec<f64>>())), v);
